@@ -521,13 +521,13 @@ func check(id, tier string) int {
 		if tier == "thorough" {
 			n = 2000
 		}
-		v, st, crashed := crossProcessDeterminismOut(cfg, b, tier, seed, n)
+		v, st, crashed, vidx := crossProcessDeterminismOut(cfg, b, tier, seed, n)
 		extra := shardOut{res: &shardResult{Prop: cfg.ID, Stats: st, Exhaustive: true}}
 		if crashed != nil {
 			// a crash (race report) in one of the fresh processes: attributed like any shard crash
 			outs = append(outs, *crashed)
 		} else if v != nil {
-			extra.res.Violations = []replayFile{{Property: cfg.ID, Tier: tier, Seed: seed, Stream: cfg.ID, Random: true, Violation: *v, Engine: "libsim"}}
+			extra.res.Violations = []replayFile{{Property: cfg.ID, Tier: tier, Seed: seed, Stream: cfg.ID, Case: vidx, Random: true, Violation: *v, Engine: "libsim"}}
 		}
 		outs = append(outs, extra)
 	}
@@ -891,6 +891,38 @@ func replay(path string) int {
 		return replayCLI(cfg, &rf, scratch, path)
 	}
 	b := buildLib(cfg, rf.Tier, scratch)
+	if rf.Violation.Kind == "nondeterministic-output" {
+		// "the same bytes in a new process" is a statement about several processes: the case
+		// is run in twelve fresh ones and the digests of everything the library returned are
+		// compared (what differs between processes is decided by the code under test, e.g. a
+		// map iteration order, not by the simulator; twelve processes make it show)
+		const n = 12
+		digs := make([]string, n)
+		var wg sync.WaitGroup
+		for i := 0; i < n; i++ {
+			wg.Add(1)
+			go func(i int) {
+				defer wg.Done()
+				_, digs[i], _ = replayRaw(cfg, b, &rf)
+			}(i)
+		}
+		wg.Wait()
+		distinct := map[string]int{}
+		for _, d := range digs {
+			distinct[d]++
+		}
+		fmt.Printf("replay: %d fresh processes, output digests: %v\n", n, distinct)
+		if _, bad := distinct[""]; bad {
+			infra("replay: a process did not report a digest")
+		}
+		if len(distinct) < 2 {
+			fmt.Println("replay: no violation reproduced")
+			return 0
+		}
+		fmt.Printf("replay: reproduced %s@%s\n", rf.Violation.Kind, rf.Violation.Site)
+		fmt.Printf("VIOLATION property=%s replay=%s\n", rf.Property, path)
+		return 1
+	}
 	v, out := replayOnce(cfg, b, &rf)
 	fmt.Print(out)
 	if v == nil {
@@ -908,6 +940,12 @@ func replay(path string) int {
 
 // replayOnce runs one tape in a fresh process and reports the violation it produced.
 func replayOnce(cfg *propCfg, b *build, rf *replayFile) (*violation, string) {
+	v, _, out := replayRaw(cfg, b, rf)
+	return v, out
+}
+
+// replayRaw also returns the digest of everything the library returned in the case.
+func replayRaw(cfg *propCfg, b *build, rf *replayFile) (*violation, string, string) {
 	dir, err := os.MkdirTemp(b.scratch, "rp")
 	if err != nil {
 		infra("%v", err)
@@ -935,7 +973,7 @@ func replayOnce(cfg *propCfg, b *build, rf *replayFile) (*violation, string) {
 	case <-time.After(300 * time.Second):
 		cmd.Process.Kill()
 		<-done
-		return &violation{Kind: "hang", Site: "watchdog", Detail: tail(buf.String(), 4000)}, buf.String()
+		return &violation{Kind: "hang", Site: "watchdog", Detail: tail(buf.String(), 4000)}, "", buf.String()
 	}
 	if err != nil {
 		exit := -1
@@ -943,17 +981,18 @@ func replayOnce(cfg *propCfg, b *build, rf *replayFile) (*violation, string) {
 			exit = ee.ExitCode()
 		}
 		if v, ok := classifyCrash(cfg, shardOut{exit: exit, stderr: buf.String()}); ok {
-			return &v, buf.String()
+			return &v, "", buf.String()
 		}
-		return nil, buf.String()
+		return nil, "", buf.String()
 	}
 	ob, err := os.ReadFile(outPath)
 	if err != nil {
-		return nil, buf.String()
+		return nil, "", buf.String()
 	}
 	var res struct {
 		Violation *violation `json:"violation"`
+		Digest    string     `json:"digest"`
 	}
 	json.Unmarshal(ob, &res)
-	return res.Violation, buf.String()
+	return res.Violation, res.Digest, buf.String()
 }
